@@ -92,7 +92,7 @@ class UQMonitor(Monitor):
     def sig(self, sim, **kw):
         c = sim.cfg
         s = {"boundary": c["boundary"], "families": "+".join(sorted(set(d[0] for d in c["distributions"]))),
-             "finite_normal": any(d[0] == "Normal" and math.isfinite(c["a"][i]) for i, d in enumerate(c["distributions"]))}
+             "finite_normal": any(d[0] == "Normal" and math.isfinite(c["a"][i]) and math.isfinite(c["b"][i]) for i, d in enumerate(c["distributions"]))}
         s.update(kw)
         return s
 
@@ -242,8 +242,14 @@ class C15(Check):
             fam = r.choice(["Uniform", "Uniform", "Triangle", "Normal", "Normal"] if not boundary else ["Uniform", "Uniform", "Uniform", "Triangle", "Triangle", "Normal"])
             if fam == "Normal":
                 mu, sigma = round(r.uniform(-1, 1), 2), r.choice([0.5, 1.0, 2.0])
-                if not boundary and r.random() < 0.6:
+                u = r.random()
+                if not boundary and u < 0.5:
                     a.append(float("-inf")); b.append(float("inf"))
+                elif not boundary and u < 0.7:      # half-infinite support
+                    if r.random() < 0.5:
+                        a.append(float("-inf")); b.append(round(mu + r.choice([0.5, 1.0, 2.0]) * sigma, 3))
+                    else:
+                        a.append(round(mu - r.choice([0.5, 1.0, 2.0]) * sigma, 3)); b.append(float("inf"))
                 else:
                     a.append(round(mu - r.choice([1.0, 2.0, 4.0]) * sigma, 3)); b.append(round(mu + r.choice([1.0, 2.0, 4.0]) * sigma, 3))
                 dist.append(["Normal", mu, sigma])
@@ -255,12 +261,12 @@ class C15(Check):
         if r.random() < 0.35:          # the same description in several dimensions (distribution objects are shared by description)
             dist = [list(dist[0]) if dist[0][0] != "Triangle" else list(dist[d]) for d in range(dim)]
             for d in range(dim):
-                if dist[d][0] == "Normal" and not (math.isinf(a[0]) == math.isinf(a[d])):
+                if dist[d][0] == "Normal" and not (math.isinf(a[0]) == math.isinf(a[d]) and math.isinf(b[0]) == math.isinf(b[d])):
                     a[d], b[d] = a[0], b[0]
-                if dist[d][0] == "Uniform" and not math.isfinite(a[d]):
+                if dist[d][0] == "Uniform" and not (math.isfinite(a[d]) and math.isfinite(b[d])):
                     a[d], b[d] = 0.0, 1.0 + d
         for d in range(dim):
-            if dist[d][0] in ("Uniform", "Triangle") and not math.isfinite(a[d]):
+            if dist[d][0] in ("Uniform", "Triangle") and not (math.isfinite(a[d]) and math.isfinite(b[d])):
                 a[d], b[d] = 0.0, 1.0
             if dist[d][0] == "Triangle" and not (a[d] < dist[d][1] < b[d]):
                 dist[d][1] = round(0.5 * (a[d] + b[d]), 4)
